@@ -223,6 +223,19 @@ pub const STMT_CORE: &[&str] = &[
     "return a, (f())",
     "return (a)",
     "return ((f()))",
+    // multi-line tokens (line-ending conversion inside long strings and block comments)
+    "local x = [[a\nb]]",
+    "local x = [==[\na\n\nb]==]",
+    "local x = [[a\r\nb]]",
+    "f([[a\nb]])",
+    "f[[a\nb]]",
+    "--[[c\nd]]\nlocal x = 1",
+    "--[==[c\r\nd]==]\nlocal x = 1",
+    "local x = 1 --[[c\nd]]",
+    "local x = \"a\\\nb\"",
+    "#!/usr/bin/lua\nlocal x = 1",
+    "-- c\r\nlocal x = 1\r\n",
+    "local t = {\r\n\ta = 1,\r\n}",
     // statements that carry their own semicolon
     "local a = 1;",
     "a = 1;",
